@@ -23,6 +23,9 @@ func main() {
 		os.Exit(cmdSelftest(os.Args[2:]))
 	case "rac":
 		// hvc rac <stages> <text>... : run the runtime-checked build on texts
+		if pp, perr := loadProg("/repo"); perr == nil {
+			computeRacOldTypes(pp)
+		}
 		run, err := runRAC("/repo", os.Args[3:], os.Args[2], 120*time.Second)
 		if err != nil {
 			fmt.Println("error:", err)
